@@ -23,36 +23,39 @@ type pRun struct {
 	plan   *pStorePlan
 	t0     time.Time
 
-	mu       sync.Mutex
-	evs      []pEvent
-	closed   bool // case log ended: later events are only watched for worker exits
-	exits    int
-	fcancels int
-	started  bool
-	ops      map[int]*pOpInfo
-	nextOp   int
-	cur      map[int64]int // goroutine -> op being called
-	vid2op   map[int64]int
-	sent     map[int]bool
-	chans    map[int]chan error
-	recvd    map[int][]bool // op -> values received (true = nil)
-	retAcc   map[int]bool   // IngestRows/Flush accepted (as seen by the caller)
-	retSeq   map[int]int    // harness sequence numbers for real-time order
-	callSeq  map[int]int
-	seq      int
-	visAny   map[int]bool
-	visBad   map[int]bool
-	snapAt   map[int]map[int]bool // op answered nil -> ops fully visible in a query issued at that moment
-	stopRes  *bool                // nil: no Stop; true: nil; false: deadline error
-	stopSeq  int
-	lateStore []string // CreateFile/Update begun with a live ctx after a deadline Stop returned
-	peakUn   int64
-	accN     atomic.Int64
-	ansN     atomic.Int64
+	mu         sync.Mutex
+	evs        []pEvent
+	closed     bool // case log ended: later events are only watched for worker exits
+	exits      int
+	fcancels   int
+	brDeadline int
+	fcancelled bool // flush.cancel seen inside the case log
+	started    bool
+	ops        map[int]*pOpInfo
+	nextOp     int
+	cur        map[int64]int // goroutine -> op being called
+	vid2op     map[int64]int
+	sent       map[int]bool
+	chans      map[int]chan error
+	recvd      map[int][]bool // op -> values received (true = nil)
+	retAcc     map[int]bool   // IngestRows/Flush accepted (as seen by the caller)
+	retSeq     map[int]int    // harness sequence numbers for real-time order
+	callSeq    map[int]int
+	seq        int
+	visAny     map[int]bool
+	visBad     map[int]bool
+	snapAt     map[int]map[int]bool // op answered nil -> ops fully visible in a query issued at that moment
+	stopRes    *bool                // nil: no Stop; true: nil; false: deadline error
+	stopSeq    int
+	lateStore  []string // CreateFile/Update begun with a live ctx after a deadline Stop returned
+	peakUn     int64
+	accN       atomic.Int64
+	ansN       atomic.Int64
 
-	quit chan struct{}
-	wg   sync.WaitGroup // producers and receivers
-	hung atomic.Int64
+	quit      chan struct{}
+	wg        sync.WaitGroup // producers and receivers
+	hung      atomic.Int64
+	measuring atomic.Bool   // peak of accepted-minus-answered is sampled only while set
 	pauseStop chan struct{} // when non-nil, Stop pauses before its final select until closed
 }
 
@@ -118,8 +121,14 @@ func (r *pRun) sink(e bs.VerifEvent) {
 	if e.Kind == "flush.cancel" {
 		r.fcancels++
 	}
+	if e.Kind == "stop.ret.deadline" {
+		r.brDeadline++
+	}
 	if r.closed {
 		return
+	}
+	if e.Kind == "flush.cancel" {
+		r.fcancelled = true
 	}
 	switch e.Kind {
 	case "ingest.try", "flush.try":
@@ -259,7 +268,7 @@ func (r *pRun) ingest(ctx context.Context, chMode string, build func(id int) *pB
 func (r *pRun) noteAccepted() {
 	u := r.accN.Add(1) - r.ansN.Load()
 	r.mu.Lock()
-	if u > r.peakUn {
+	if r.measuring.Load() && u > r.peakUn {
 		r.peakUn = u
 	}
 	r.mu.Unlock()
@@ -416,11 +425,11 @@ func (r *pRun) waitQuiet(max, quiet time.Duration) (hung bool) {
 }
 
 type pResult struct {
-	items                              []pItem
-	problems                           []string
-	onceSame, onceFresh, anyVis, bad   []int
-	exact                              bool
-	hung                               bool
+	items                            []pItem
+	problems                         []string
+	onceSame, onceFresh, anyVis, bad []int
+	exact                            bool
+	hung                             bool
 }
 
 // finish ends the case log, collects buffered acks, queries, then tears the engine down.
@@ -528,7 +537,7 @@ func (r *pRun) finish(maxWait time.Duration, exact bool) *pResult {
 	cctx, cancel := context.WithCancel(context.Background())
 	cancel()
 	r.mu.Lock()
-	fc0 := r.fcancels
+	fc0, bd0 := r.fcancels, r.brDeadline
 	r.mu.Unlock()
 	stopped := make(chan struct{})
 	go func() { r.eng.Stop(cctx); close(stopped) }()
@@ -551,13 +560,17 @@ func (r *pRun) finish(maxWait time.Duration, exact bool) *pResult {
 			time.Sleep(2 * time.Millisecond)
 		}
 	}
-	// the teardown Stop's context was already done, so its AfterFunc callback always runs
-	// (on its own goroutine): wait for it, or its event would land in the next run's log
+	// the teardown Stop's context was already done, so its AfterFunc callback always runs (on its
+	// own goroutine), and the deadline branch cancels once more itself: wait for all of these
+	// events, or one of them would land in the next run's log
 	for i := 0; i < 1500; i++ {
 		r.mu.Lock()
-		n := r.fcancels
+		n, want := r.fcancels, fc0+1
+		if r.brDeadline > bd0 {
+			want = fc0 + 2
+		}
 		r.mu.Unlock()
-		if n > fc0 {
+		if n >= want {
 			break
 		}
 		time.Sleep(time.Millisecond)
